@@ -46,6 +46,7 @@ class EngineProp(PropBase):
 
 # ---------------------------------------------------------------- reference comparison
 import refinterp  # noqa: E402
+import pv  # noqa: E402
 from core import fail  # noqa: E402
 from fractions import Fraction  # noqa: E402
 
@@ -93,10 +94,13 @@ def ref_diffs(case, obs):
                 bad = True
     if bad:
         d['sleeps'] = f'slept {[str(x) for x in sl]}, expected {[str(x) if not isinstance(x, tuple) else "[%s,%s]" % (x[1], x[2]) for x in rs]}'
-    errs = [(e.get('name'), e.get('description'), e.get('step'), e.get('swallowed')) for e in engine.run_errors(obs)]
-    rerrs = ref['errors']
+    errs = [(e.get('name'), e.get('description'), e.get('step'), e.get('swallowed'), e.get('customError'))
+            for e in engine.run_errors(obs)]
+    canon = pv.Canon()
+    rerrs = [(a, b, c, dd, canon(e)) for a, b, c, dd, e in ref['errors']]
     ok = len(errs) == len(rerrs) and all(
         a[0] == b[0] and (b[1] is None or a[1] == b[1]) and a[2] == b[2] and a[3] == b[3]
+        and pv.pv_equal(a[4], b[4])
         for a, b in zip(errs, rerrs))
     if not ok:
         d['errors'] = f'runErrors {errs!r}, expected {rerrs!r}'
